@@ -101,7 +101,10 @@ def apply(toks, au, opts):
             ws0 = recv[0].ws
             del out[s:]
             au.note("R", "X.to_vec() -> vx_slice_to_vec(X)")
-            out += _call("vx_slice_to_vec", [[_w(recv[0], "")] + recv[1:]], ws0)
+            if is_p(recv[-1], "]"):
+                out += _call("vx_slice_to_vec", [[Tok("p", "&", "")] + [_w(recv[0], "")] + recv[1:]], ws0)
+            else:
+                out += _call("vx_slice_to_vec", [[_w(recv[0], "")] + recv[1:]], ws0)
             i += 4
             continue
         # X.as_bytes()  ->  vx_as_bytes(&X)
@@ -162,6 +165,16 @@ def apply(toks, au, opts):
             operand = toks[z + 8:e]
             au.note("R", "Instant::now() <= X -> Instant::now().vx_le(&X)")
             toks[z + 6:e] = [Tok("p", ".", ""), Tok("id", "vx_le", ""), Tok("p", "(", ""), Tok("p", "&", "")] + [_w(x, "" if q == 0 else x.ws) for q, x in enumerate(operand)] + [Tok("p", ")", "")]
+    # X.clone() on a (String, u16) pair named by the recipe:  pairclone=destination  ->  vx_clone_pair(&destination)
+    for nm in filter(None, opts.get("pairclone", "").split(",")):
+        while True:
+            z = find_seq(toks, [nm, ".", "clone", "(", ")"])
+            if z < 0:
+                break
+            au.note("R", f"{nm}.clone() (tuple) -> vx_clone_pair(&{nm})")
+            ws = toks[z].ws
+            toks[z:z + 5] = toks_of(f"vx_clone_pair(&{nm})")
+            toks[z].ws = ws
     # integer to_string named by the recipe:  tostring=pkt  ->  `pkt.to_string()` becomes vx_int_to_string(pkt as u64)
     for nm in filter(None, opts.get("tostring", "").split(",")):
         while True:
